@@ -14,7 +14,7 @@ Definition lf_wire (lf : option (bytes * bytes)) : Prop :=
 Definition entry_wire (e : pentry) : Prop :=
   match e with
   | EFull (NLeaf k v) => N.of_nat (length k) < 2 ^ 32 /\ N.of_nat (length v) < 2 ^ 32
-  | EFull (NInt bl _ lf) => bl < 2 ^ 16 /\ lf_wire lf
+  | EFull (NInt bl _ lf _) => bl < 2 ^ 16 /\ lf_wire lf
   | _ => True
   end.
 
@@ -180,7 +180,7 @@ Section Sound.
     cbn [vp] in E. destruct es as [|e es]; [discriminate|].
     destruct (MAX_PROOF_DEPTH <? depth); [discriminate|].
     inversion F as [|e0 es0 We Wes]; subst.
-    destruct e as [|[k v|bl lb lf]|h|].
+    destruct e as [|[k v|bl lb lf cl]|h|].
     - injection E as <- <-. cbn; auto.
     - injection E as <- <-. cbn in We. cbn; auto.
     - cbn in We. destruct We as [Wb Wlf].
@@ -211,7 +211,7 @@ Section Sound.
     induction fuel as [|f IH]; intros ver depth es p rest E; [discriminate|].
     cbn [vp] in E. destruct es as [|e es]; [discriminate|].
     destruct (MAX_PROOF_DEPTH <? depth); [discriminate|].
-    destruct e as [|[k v|bl lb lf]|h|].
+    destruct e as [|[k v|bl lb lf cl]|h|].
     - injection E as <- <-. exists [ENil]. split; [reflexivity|discriminate].
     - injection E as <- <-. eexists [_]. split; [reflexivity|discriminate].
     - destruct (ver =? 0).
@@ -219,14 +219,14 @@ Section Sound.
         destruct (vp f ver (depth + 1) r2) as [pr r3|] eqn:Er; [|discriminate].
         injection E as <- <-.
         destruct (IH _ _ _ _ _ El) as (u1 & -> & _). destruct (IH _ _ _ _ _ Er) as (u2 & -> & _).
-        exists (EFull (NInt bl lb lf) :: u1 ++ u2). split; [cbn [app]; now rewrite <- ?app_assoc|discriminate].
+        exists (EFull (NInt bl lb lf cl) :: u1 ++ u2). split; [cbn [app]; now rewrite <- ?app_assoc|discriminate].
       + destruct (vp f ver (depth + 1) es) as [plf r1|] eqn:Elf; [|discriminate].
         destruct (vp f ver (depth + 1) r1) as [pl r2|] eqn:El; [|discriminate].
         destruct (vp f ver (depth + 1) r2) as [pr r3|] eqn:Er; [|discriminate].
         injection E as <- <-.
         destruct (IH _ _ _ _ _ Elf) as (u0 & -> & _).
         destruct (IH _ _ _ _ _ El) as (u1 & -> & _). destruct (IH _ _ _ _ _ Er) as (u2 & -> & _).
-        exists (EFull (NInt bl lb lf) :: u0 ++ u1 ++ u2). split; [cbn [app]; now rewrite <- ?app_assoc|discriminate].
+        exists (EFull (NInt bl lb lf cl) :: u0 ++ u1 ++ u2). split; [cbn [app]; now rewrite <- ?app_assoc|discriminate].
     - destruct (length h =? HASH_SIZE)%nat; [|discriminate]. injection E as <- <-.
       eexists [_]. split; [reflexivity|discriminate].
     - discriminate.
@@ -243,7 +243,7 @@ Section Sound.
     unfold MAX_PROOF_DEPTH, max_proof_depth in D.
     assert (forall es', vp f ver (depth + 1) es' <> VErr EFuel) as IH'.
     { intros es'. apply IH; lia. }
-    destruct e as [|[k v|bl lb lf]|h|]; try discriminate.
+    destruct e as [|[k v|bl lb lf cl]|h|]; try discriminate.
     - destruct (ver =? 0).
       + destruct (vp f ver (depth + 1) es) as [pl r2|e1] eqn:El.
         * destruct (vp f ver (depth + 1) r2) as [pr r3|e2] eqn:Er; [discriminate|].
